@@ -57,6 +57,10 @@ def states(tier, seed):
         if rap in (0.25, 1.0) or tier == "thorough":
             for a, b in PAIRS:
                 st.append(dict(base, part="vars", dvs={a: [SINGLE[a][1], "const"], b: [SINGLE[b][2], "const"]}))
+    # steep dihedral / anhedral (V-tail, winglet-like: reference-axis segments steeper than 45 deg, both slopes) with twist of both signs
+    for pf, (side, ny), dih, tw, kind in itertools.product(["rect", "swept"], [("left", 3), ("full", 5)], [60.0, -60.0], [4.0, -3.0], ["const", "vary"]):
+        st.append(dict(pf=pf, nx=2, ny=ny, side=side, rap=0.25, fam=fam, part="vars", dvs={"dihedral": [dih, "const"], "twist": [tw, kind]}))
+        st.append(dict(pf=pf, nx=3, ny=ny, side=side, rap=0.6, fam=fam, part="vars", dvs={"dihedral": [dih, "const"]}))
     for nsec, nx, rap, dv in itertools.product([1, 2, 3], [2, 3], [0.25, 0.0, 0.6, 1.0], ["none", "both_default", "twist", "chord"]):
         st.append(dict(part="multisec", nsec=nsec, nx=nx, rap=rap, dv=dv, fam=fam))
     # unified B-spline control points of a multi-section surface (build_multi_spline / connect_multi_spline): every count
@@ -313,6 +317,16 @@ def part_vars(s):
         e = np.abs(ang - np.abs(dvals["twist"])).max()
         if not e <= 1e-6 and flat:
             bad("twist_angle", "section rotation angle differs from the twist value by %.2e deg" % e, e)
+        # ... and its sense: positive twist is nose-up about the local spanwise direction of the reference axis (oriented towards
+        # increasing y): (chord before) x (chord after) points along it
+        ra = ref_axis(notw, s["rap"])
+        tang = np.gradient(ra, axis=0)
+        sense = np.einsum("jk,jk->j", np.cross(c0, c1), tang)
+        tw_ = np.broadcast_to(np.asarray(dvals["twist"], dtype=float), sense.shape)
+        val += 1
+        wrong = (np.abs(tw_) > 1e-9) & (np.sign(sense) != np.sign(tw_))
+        if flat and np.any(wrong) and np.all(tang[:, 1] > 0):
+            bad("twist_sense", "section %d is twisted in the wrong sense (twist %+g deg, nose-%s about the local reference axis)" % (int(np.argmax(wrong)), tw_[int(np.argmax(wrong))], "down" if tw_[int(np.argmax(wrong))] > 0 else "up"), 1.0)
     moved = np.abs(out - m0).max()
     return dict(viol=viol, nontrivial=bool(moved > 1e-12 or is_default), digest=digest_arrays(out), transitions=1, validated=val)
 
